@@ -287,7 +287,11 @@ class GeneralizedSubsetGenerator(_pyDOE_AnalysisGenerator):
         ndarray
             The design matrix as a size x levels array of indices.
         """
-        return self._gsd(levels=self._get_all_levels(), reduction=self._reduction, n=self._n)
+        doe = self._gsd(levels=self._get_all_levels(), reduction=self._reduction, n=self._n)
+        if not isinstance(doe, np.ndarray):
+            # a list of n complementary designs is returned when n > 1: run them one after another
+            doe = np.vstack(doe)
+        return doe
 
 
 class PlackettBurmanGenerator(_pyDOE_AnalysisGenerator):
